@@ -137,13 +137,14 @@ xsurv0_pipe_init(void *arg, nni_pipe *npipe, void *s)
 	// for applying back pressure.  It would be nice if surveys carried
 	// an expiration with them, so that we could discard any that are
 	// not delivered before their expiration date.
-	if ((rv = nni_msgq_init(&p->sendq, 16)) != 0) {
-		xsurv0_pipe_fini(p);
-		return (rv);
-	}
-
 	p->npipe = npipe;
 	p->psock = s;
+
+	if ((rv = nni_msgq_init(&p->sendq, 16)) != 0) {
+		// The core still closes, stops and finalizes the pipe
+		// (running xsurv0_pipe_fini), so we must not do that here.
+		return (rv);
+	}
 	return (0);
 }
 
@@ -180,7 +181,9 @@ xsurv0_pipe_close(void *arg)
 	nni_aio_close(&p->aio_recv);
 	nni_aio_close(&p->aio_putq);
 
-	nni_msgq_close(p->sendq);
+	if (p->sendq != NULL) {
+		nni_msgq_close(p->sendq);
+	}
 
 	nni_mtx_lock(&s->mtx);
 	if (nni_list_active(&s->pipes, p)) {
